@@ -14,6 +14,9 @@ pub struct C05;
 /// expression text for an operand: a literal expression when finite, `@` otherwise (caller binds the placeholder)
 fn operand(x: f64) -> (String, Option<f64>) {
     match f64_expr(x) {
+        // values below one are also written in the leading-point form (.5 for 0.5)
+        Some(s) if s.starts_with("0.") && s.len() % 2 == 0 => (s[1..].to_string(), None),
+        Some(s) if s.starts_with("(-0.") && s.len() % 2 == 0 => (format!("(-{}", &s[3..]), None),
         Some(s) => (s, None),
         None => ("@".to_string(), Some(x)),
     }
@@ -85,7 +88,15 @@ impl Monitor for C05 {
                 let bits = rng.next();
                 let x = f64::from_bits(bits & 0x7fff_ffff_ffff_ffff);
                 if x.is_finite() && x.abs() < 1e25 && x.abs() > 1e-25 {
-                    Ast::Lit(format!("{}", x))
+                    let t = format!("{}", x);
+                    // leading-point and trailing-point spellings of the same literal
+                    if t.starts_with("0.") && rng.chance(1, 2) {
+                        Ast::Lit(t[1..].to_string())
+                    } else if !t.contains('.') && rng.chance(1, 4) {
+                        Ast::Lit(format!("{}.", t))
+                    } else {
+                        Ast::Lit(t)
+                    }
                 } else {
                     Ast::Lit(rng.pick(&["1", "2", "3", "0.5", "10", "0.1", "7", "1.5"][..]).to_string())
                 }
